@@ -14,3 +14,4 @@ def run(ck):
     filt.r9_degenerate_phases(ck, P)
     filt.r10_touching_supports(ck, P)
     filt.r11_final_correction(ck, P)
+    filt.r12_param_block_validated(ck, P)
